@@ -80,7 +80,8 @@ def vc_is_none(x):
     return vc_is(x, None)
 
 
-@harness('X1', targets='kopf._core.actions.execution.execute_handler_once', props=['C11', 'C02', 'C09', 'C10', 'C20', 'C17', 'C18', 'C06', 'C14'],
+@harness('X1', targets='kopf._core.actions.execution.execute_handler_once', props=['C11', 'C02', 'C09', 'C10', 'C20', 'C17', 'C18', 'C06', 'C14', 'C08', 'C12', 'C15', 'C03'],
+         prop_clauses={'C08': ['classification'], 'C12': ['classification', 'never_raises_handler_errors'], 'C15': ['limits_before_invocation', 'invoked_once_with_recorded_retry'], 'C03': ['classification', 'never_raises_handler_errors']},
          clauses=['limits_before_invocation', 'invoked_once_with_recorded_retry', 'classification', 'cancellation_propagates',
                   'never_raises_handler_errors'],
          canaries=['canary.always_final', 'canary.always_invoked'],
@@ -191,7 +192,8 @@ def X1(vc):
 
 
 # ----------------------------------------------------------------------------------------------- X6
-@harness('X6', targets='kopf._core.actions.invocation.invoke', props=['C09', 'C20', 'C11', 'C06', 'C10', 'C02', 'C17', 'C18', 'C14'],
+@harness('X6', targets='kopf._core.actions.invocation.invoke', props=['C09', 'C20', 'C11', 'C06', 'C10', 'C02', 'C17', 'C18', 'C14', 'C08', 'C15', 'C04'],
+         prop_clauses={'C08': ['result_or_error_passed_through', 'async_awaited_directly'], 'C15': ['async_awaited_directly', 'result_or_error_passed_through'], 'C04': ['kwargs_merged']},
          clauses=['never_finishes_before_the_thread', 'cancellation_postponed_not_lost', 'result_or_error_passed_through',
                   'async_awaited_directly', 'kwargs_merged', 'context_carried_into_the_thread'],
          canaries=['canary.never_cancelled'],
